@@ -64,7 +64,7 @@ let () =
       let line = input_line stdin in
       if String.length line > 0 then begin
         let v = parse line in
-        let r = run v in
+        let r = verif_entry v in
         let buf = Buffer.create 256 in
         print_val buf r; print_endline (Buffer.contents buf)
       end
